@@ -94,7 +94,18 @@ fn rand_cert(rng: &mut Rng) -> Certificate {
     if !c.is_genesis() {
         c.signature = CertificateSignature::MultiSignature(rand_entity(rng), fake_keys::multi_signature()[rng.below(2) as usize].try_into().unwrap());
     } else {
-        c.signature = CertificateSignature::GenesisSignature(fake_keys::genesis_signature()[rng.below(2) as usize].to_string().try_into().unwrap());
+        // two fixed signatures, or 64 arbitrary bytes (an Ed25519 signature is pseudo-random) whose FIRST byte is, half of the
+        // time, one a text-sniffing decoder could take for another format: `{ [ " digit n t f space - 0x00 0xff`
+        let fixed: mithril_common::crypto_helper::GenesisEd25519Signature = fake_keys::genesis_signature()[rng.below(2) as usize].to_string().try_into().unwrap();
+        let sig = if rng.chance(1, 3) { fixed } else {
+            let first = if rng.bool() { *rng.pick(&[0x7bu8, 0x5b, 0x22, 0x30, 0x39, 0x6e, 0x74, 0x66, 0x20, 0x2d, 0x00, 0xff]) } else { rng.u64() as u8 };
+            let mut b = rng.bytes(64); b[0] = first;
+            // (built from the bytes, NOT through the string decoder: that decoder is part of what the round trip judges)
+            let arr: [u8; 64] = b.try_into().unwrap();
+            let _ = &fixed;
+            mithril_common::crypto_helper::ProtocolKey::new(ed25519_dalek::Signature::from_bytes(&arr))
+        };
+        c.signature = CertificateSignature::GenesisSignature(sig);
     }
     c
 }
